@@ -29,7 +29,11 @@ type batchCase struct {
 }
 
 func drawSpec(t *rapid.T) specCase {
-	comps := specgen.GenComponents(t, c04opts, rapid.IntRange(1, 5).Draw(t, "ncomp"))
+	opts := c04opts
+	// a third of the documents carry string / integer / number formats (value-directed family;
+	// instances of formatted strings are mostly refused by the decoder, which is counted)
+	opts.Formats = rapid.IntRange(0, 2).Draw(t, "formats") == 0
+	comps := specgen.GenComponents(t, opts, rapid.IntRange(1, 5).Draw(t, "ncomp"))
 	var sc specCase
 	sc.Meta.Doc.Components = comps
 	sc.Meta.Instances = map[string][]string{}
